@@ -73,6 +73,13 @@ var stringContexts = []litContext{
 	{"ternary-else", func(q string) string { return "[[{{ 0 ? \"no\" : " + q + " }}]]" }, func(l string) string { return l }, false},
 	{"then-argument", func(q string) string { return "[[{{ true.then(" + q + ") }}]]" }, func(l string) string { return l }, false},
 	{"then-else-argument", func(q string) string { return "[[{{ false.then(\"no\", " + q + ") }}]]" }, func(l string) string { return l }, false},
+	// the same literal node is evaluated more than once; only the last evaluation is printed
+	{"second-pass-of-each", func(q string) string {
+		return "@each(k in [1, 2, 3]){{ v = " + q + " }}@if(k == 3)[[{{ v }}]]@end@end"
+	}, func(l string) string { return l }, false},
+	{"third-pass-of-for-raw", func(q string) string {
+		return "@for(k = 0; k < 3; k++){{ v = " + q + ".raw() }}@if(k == 2)[[{{ v }}]]@end@end"
+	}, func(l string) string { return l }, true},
 	{"raw", func(q string) string { return "[[{{ " + q + ".raw() }}]]" }, func(l string) string { return l }, true},
 	{"raw-concat", func(q string) string { return "[[{{ (" + q + " + " + q + ").raw() }}]]" }, func(l string) string { return l + l }, true},
 	{"raw-assigned", func(q string) string { return "{{ v = " + q + " }}[[{{ v.raw() }}]]" }, func(l string) string { return l }, true},
@@ -212,6 +219,9 @@ func runTreeLiteral(c *core.Ctx, l string) {
 			return out, true
 		}
 		c.Nontrivial("tree:" + quoted)
+		// a loaded template is rendered more than once: the second render is the one that is judged
+		render("page")
+		render("comp")
 		if out, ok := render("page"); ok {
 			parts := strings.Split(strings.TrimSuffix(strings.TrimPrefix(out, "L<"), ">"), "|")
 			if len(parts) != 3 || !strings.HasPrefix(out, "L<") {
